@@ -142,8 +142,8 @@ var (
 	reLoopRange = regexp.MustCompile(`^for ([^:]+)\s*:*=\s*range\s*([^\s]*)\s*(?:separator|sep)*\s*(.*)` + "")
 	reLoopCount = regexp.MustCompile(`^for (\w*)\s*:*=\s*(\w+)\s*;\s*\w+\s*(<=|<|>=|>|!=)+\s*([^;]+)\s*;\s*\w*(--|\+\+)+\s*(?:separator|sep)*\s*(.*)`)
 	// Regexp to parse break/lazybreak instructions.
-	reLoopBrkN  = regexp.MustCompile(`^break (\d+)`)
-	reLoopLBrkN = regexp.MustCompile(`^lazybreak (\d+)`)
+	reLoopBrkN  = regexp.MustCompile(`^break (\d+)$`)
+	reLoopLBrkN = regexp.MustCompile(`^lazybreak (\d+)$`)
 	// Regexp to parse break-if/lazybreak-if instructions.
 	reLoopBrkIf   = regexp.MustCompile(`^break (if .*)`)
 	reLoopBrkNIf  = regexp.MustCompile(`^break (\d+) (if .*)`)
